@@ -66,21 +66,59 @@ func EnumCase(path, in string, data interface{}, enum interface{}, caseSensitive
 			if dataString != nil && enumString != nil && strings.EqualFold(*dataString, *enumString) {
 				return nil
 			}
-			actualType := reflect.TypeOf(enumValue)
-			if actualType == nil { // Safeguard. Frankly, I don't know how we may get a nil
-				continue
-			}
-			expectedValue := reflect.ValueOf(data)
-			if expectedValue.IsValid() && expectedValue.Type().ConvertibleTo(actualType) {
-				// Attempt comparison after type conversion
-				if reflect.DeepEqual(expectedValue.Convert(actualType).Interface(), enumValue) {
-					return nil
-				}
+			// Attempt comparison after reconciling the types
+			if equalAfterConversion(data, enumValue) {
+				return nil
 			}
 		}
 		values = append(values, enumValue)
 	}
 	return errors.EnumFail(path, in, data, values)
+}
+
+// equalAfterConversion tells whether data equals an enum value of another Go type.
+//
+// Numbers of different kinds are compared by their value: nothing is truncated (1.5 is not 1),
+// wrapped (uint8(255) is not int8(-1)) or turned into text (65 is not "A"). Other values are
+// only converted between types of the same kind, e.g. a named string type and string.
+func equalAfterConversion(data, enumValue interface{}) bool {
+	dv, ev := reflect.ValueOf(data), reflect.ValueOf(enumValue)
+	if !dv.IsValid() || !ev.IsValid() {
+		return false
+	}
+
+	if isFloatKind(dv.Kind()) && isFloatKind(ev.Kind()) {
+		return dv.Float() == ev.Float() // exact, and also right for infinities
+	}
+
+	dr, er := numberAsRat(dv), numberAsRat(ev)
+	if dr != nil || er != nil {
+		return dr != nil && er != nil && dr.Cmp(er) == 0
+	}
+
+	if dv.Kind() != ev.Kind() || !dv.Type().ConvertibleTo(ev.Type()) {
+		return false
+	}
+
+	return reflect.DeepEqual(dv.Convert(ev.Type()).Interface(), enumValue)
+}
+
+func isFloatKind(k reflect.Kind) bool {
+	return k == reflect.Float32 || k == reflect.Float64
+}
+
+// numberAsRat returns the exact value of a finite number of any numeric kind, or nil.
+func numberAsRat(v reflect.Value) *big.Rat {
+	switch v.Kind() { //nolint:exhaustive
+	case reflect.Int, reflect.Int8, reflect.Int16, reflect.Int32, reflect.Int64:
+		return new(big.Rat).SetInt64(v.Int())
+	case reflect.Uint, reflect.Uint8, reflect.Uint16, reflect.Uint32, reflect.Uint64, reflect.Uintptr:
+		return new(big.Rat).SetInt(new(big.Int).SetUint64(v.Uint()))
+	case reflect.Float32, reflect.Float64:
+		return new(big.Rat).SetFloat64(v.Float()) // nil for NaN and infinities
+	default:
+		return nil
+	}
 }
 
 // convertEnumCaseStringKind converts interface if it is kind of string and case insensitivity is set
@@ -94,7 +132,7 @@ func convertEnumCaseStringKind(value interface{}, caseSensitive bool) *string {
 		return nil
 	}
 
-	str := fmt.Sprintf("%v", value)
+	str := val.String() // the string itself: %v would go through a String() method of a named type
 	return &str
 }
 
